@@ -155,6 +155,7 @@ def run(tier):
     locks.waits(la2, AIO_GUARDED, res, "T2.wait-loop(aio)",
                 reader_summaries={"AIO_ReadPool_findNextWaitingOffsetCompletedJob_locked": 1})
     aio_quiescent(prog, res)
+    aio_worker_state_after_join(prog, res)
     res.need("T2.wait-loop(aio)", 1)
     res.need("T1.guarded-by(aio)", 6)
 
@@ -169,6 +170,45 @@ def run(tier):
                     "predicate; that pthread primitives behave as specified",
         assumptions=["ZSTD_MULTITHREAD build (the shipped CLI configuration)", "lock identity is per "
                      "(record, field); no function holds two POOL_ctx objects"])
+
+
+def aio_worker_state_after_join(prog, res):
+    """T3: what the asynchronous write worker (AIO_WritePool_executeWriteJob) keeps in the pool context between jobs - the
+    pending sparse skip - is written on the worker thread without a lock.  The fields are derived from the worker's own
+    writes; every other function that touches one of them must have joined the pool (AIO_IOPool_join / AIO_IOPool_destroy)
+    on every path to the access, or be the constructor.  (`if (ctx->storedSkips == 0) return;` before the join reads a value
+    the worker may not have written yet: the final zero of a sparse file is then never written.)"""
+    R = "T3.aio-worker-state-after-join"
+    w = prog.fn("AIO_WritePool_executeWriteJob")
+    wf = {strip_casts(x["lhs"]).get("f") for b, i, x in w.events(lambda y: y.get("k") == "asg" and strip_casts(y["lhs"]).get("k") == "mem"
+                                                                 and strip_casts(y["lhs"]).get("rec") in ("WritePoolCtx_t", "IOPoolCtx_t"))}
+    res.check(len(wf) >= 1, R, "worker-written-fields", w.loc, "the write worker writes %s" % sorted(wf), "no context field written by the write worker was found")
+    n = 0
+    # wrappers: a function of this file all of whose paths join the pool counts as a join (AIO_IOPool_setFile)
+    joiners = {"AIO_IOPool_join", "AIO_IOPool_destroy"}
+    for g in prog.fns_in("programs/fileio_asyncio.c"):
+        js = g.call_roots(("AIO_IOPool_join", "AIO_IOPool_destroy"))
+        dead = g.call_roots(("__assert_fail", "abort", "exit"))     # a failed assert does not come back
+        if js and g.must_pass(via_roots=js + dead):
+            joiners.add(g.name)
+    for f in prog.fns_in("programs/fileio_asyncio.c"):
+        if f.name == w.name:
+            continue
+        acc = [(b, i, x) for b, i, x in f.events(lambda y: y.get("k") == "mem" and y.get("f") in wf and y.get("rec") in ("WritePoolCtx_t", "IOPoolCtx_t"))]
+        if not acc:
+            continue
+        if "create" in f.name.lower():
+            n += 1
+            res.check(True, R, f.name, f.loc, "constructor (before the pool can run a job)", "")
+            continue
+        joins = f.call_roots(tuple(joiners))
+        for b, i, x in acc:
+            n += 1
+            ok = bool(joins) and f.must_pass(via_roots=joins, targets=[(b, i)])
+            res.check(ok, R, "%s:%s@%s" % (f.name, x.get("f"), x.get("l")), f.loc, "accessed only after the pool was joined",
+                      "%s touches %s, which the write worker updates without a lock, on a path that has not joined the pool: the value may be stale - a pending "
+                      "sparse skip is missed and the last zero run of the output is never written (truncated file, exit status 0 in a release build)" % (f.name, x.get("f")))
+    res.need(R, 3)
 
 
 def aio_quiescent(prog, res):
